@@ -1011,9 +1011,10 @@ func (app *App) updateActiveNodes(clusterState, clusterStateDcs map[string]*node
 	if masterState.SemiSyncState != nil && masterState.SemiSyncState.MasterEnabled {
 		oldWaitSlaveCount = masterState.SemiSyncState.WaitSlaveCount
 	}
-	// data lagging replicas should not affect WaitSlaveCount
-	notLaggingActive := filterOut(activeNodes, becomeDataLag)
-	waitSlaveCount := app.switchHelper.GetRequiredWaitSlaveCount(notLaggingActive)
+	// replicas that are too far behind in download (still loading or stalled) are not made semi-sync yet:
+	// they should neither affect WaitSlaveCount nor be published as active
+	activeNodes = filterOut(filterOut(activeNodes, becomeDataLag), becomeInactive)
+	waitSlaveCount := app.switchHelper.GetRequiredWaitSlaveCount(activeNodes)
 
 	app.logger.Info().Msgf("update active nodes: active nodes are: %v, wait_slave_count %d", activeNodes, waitSlaveCount)
 	if len(becomeActive) > 0 {
